@@ -350,7 +350,7 @@ def enumerate_cases(tier):
                                   "offset": [3.0, 0.0, 0.0] if src == "TwoMeshes" else [0, 0, 0],
                                   "shape": "sphere" if shape == "sphere" else "box", "aspect": [1.0, 0.8, 1.3],
                                   "rot": [0, 0, 0] if shape == "box" else [0.3, 0.5, -0.2], "cuts": cuts,
-                                  "panels": [4, 8] if not cuts else ([8, 16] if tier == "quick" else [16, 32])})
+                                  "panels": [4, 8] if not cuts else ([8, 16] if tier == "quick" else [12, 24])})
     for src in SIZE:
         loops = ["nolink", "pentagon"]
         if src in ("Circle", "PolySquare", "PolyHexagon", "Collection", "TwoSquares"):
